@@ -42,6 +42,17 @@ CLAIMED = {
              "the contrapositive of C13_exact together with injectivity of the Sig_structure encoding (C11).",
         technique="Rocq proof (decision-structure exactness, completeness with fixed-width big-endian lemmas) + differential correspondence",
         design="4 (C13)"),
+    "C14": dict(
+        text="Machine-checked theorems over the executable model of nistkdf.KDF, kex/dh.go and the ECDH parameter codec: the KDF loop equals SP 800-108 "
+             "counter mode with FDO's label/context/length for every key, context and length below the 8-bit counter guard; output length exact; DH: both "
+             "sides hold equal keys whenever both complete (for all groups, exponents, cipher sizes, from modexp = b^e mod m only), key lengths exact, "
+             "{0,1,p-1,p,p+1} rejected, replayed SetParameter is an error; length-prefixed ECDH fields decode exactly. Tied to the code by differential runs "
+             "(KDF for every output length; DH id14/id15 x ciphers through the public Session API with pinned randomness, persistence between steps, "
+             "degenerate peers; ECDH codec) with stdlib HMAC/big.Int as oracle, plus implementation-only checks of ECDH256/384 and ASYMKEX2048/3072 sessions.",
+        note=COMMON_NOTE + "Partial: ECDH shared-secret computation and RSA-OAEP are standard-library calls checked only by the implementation-only session "
+             "runs (agreement, key sizes, persistence at each step, distinct keys across sessions); statistical independence of keys is not expressible.",
+        technique="Rocq proof (loop refinement of the KDF spec, modular-exponent algebra, finite table) + differential correspondence",
+        design="4 (C14)"),
     "C20": dict(
         text="Machine-checked theorems over the executable model of protocol.parseDirective/parseURLs/cbor.ArrayShift built on the CBOR "
              "decoder model: totality for every instruction list and role, other-role directives yield the zero directive, invariance under "
